@@ -208,12 +208,19 @@ class SourceIndex:
         return text, hits[0]
 
     def find_method(self, rel, header, name):
-        text, impl = self.find_impl(rel, header)
-        inner = rs.scan_items(text, impl.body_open + 1, impl.end - 1)
-        hits = [it for it in inner if it.kind == 'fn' and it.name == name and not it.cfg_test]
-        if len(hits) != 1:
-            raise ExtractError('lost-anchor', '%s: %d methods %s in %r' % (rel, len(hits), name, header))
-        return text, hits[0], impl, inner
+        text, items = self.load(rel)
+        want = ' '.join(header.split())
+        impls = [it for it in items if it.kind == 'impl' and it.name == want]
+        found = []
+        for impl in impls:
+            inner = rs.scan_items(text, impl.body_open + 1, impl.end - 1)
+            for it in inner:
+                if it.kind == 'fn' and it.name == name and not it.cfg_test:
+                    found.append((it, impl, inner))
+        if len(found) != 1:
+            raise ExtractError('lost-anchor', '%s: %d methods %s in %r' % (rel, len(found), name, header))
+        it, impl, inner = found[0]
+        return text, it, impl, inner
 
 
 # ----------------------------------------------------------------------------------------
@@ -527,6 +534,7 @@ def build_unit(template, repo, variant='A'):
     n = len(tl)
     renames = {}
     impl_ctx = None  # (rel, header)
+    impl_assoc = {}
 
     def emit(text, origin):
         for ln in text.split('\n'):
@@ -563,9 +571,24 @@ def build_unit(template, repo, variant='A'):
             continue
         if d == 'implopen':
             rel, header = pos[0], pos[1]
-            text, impl = idx.find_impl(rel, header)
             impl_ctx = (rel, header)
-            if 'inherent' in kw:
+            if 'inherent' not in kw and 'plain' not in kw:
+                text, impl = idx.find_impl(rel, header)
+            if 'plain' in kw:
+                emit(header + ' {', {'k': 'src', 'f': rel, 'item': header})
+            elif 'inherent' in kw:
+                # N6: associated types of the trait impl are substituted into the method signatures
+                text, items_ = idx.load(rel)
+                want = ' '.join(header.split())
+                assoc = {}
+                for im in items_:
+                    if im.kind == 'impl' and im.name == want:
+                        for it in rs.scan_items(text, im.body_open + 1, im.end - 1):
+                            if it.kind == 'type':
+                                mm = re.match(r'type\s+(\w+)\s*=\s*(.*)$', it.header)
+                                if mm:
+                                    assoc[mm.group(1)] = mm.group(2).strip()
+                impl_assoc = assoc
                 emit('impl %s {' % kw['inherent'], {'k': 'tmpl', 'f': os.path.basename(tf), 'l': tno})
                 b.counts['N6_trait_impl_to_inherent'] = b.counts.get('N6_trait_impl_to_inherent', 0) + 1
             else:
@@ -580,6 +603,7 @@ def build_unit(template, repo, variant='A'):
         if d == 'implclose':
             emit('}', {'k': 'tmpl', 'f': os.path.basename(tf), 'l': tno})
             impl_ctx = None
+            impl_assoc = {}
             i += 1
             continue
         if d == 'fn':
@@ -596,6 +620,8 @@ def build_unit(template, repo, variant='A'):
                 header = None
                 text, it = idx.find_item(rel, 'fn', name)
             outname = kw.get('as', name)
+            if kw.get('assumed') and variant in kw['assumed'].split(','):
+                is_assumed = True
             spec = {'ret': None, 'spec_lines': [], 'loops': {}, 'entry': [], 'anchors': [], 'closures': {}}
             section = None
             i += 1
@@ -641,6 +667,11 @@ def build_unit(template, repo, variant='A'):
             c = {}
             local_ren = dict(renames)
             nt = normalise(raw, c, local_ren)
+            if impl_ctx is not None:
+                for an, at in impl_assoc.items():
+                    nt, k = re.subn(r'\bSelf::' + an + r'\b', at, nt)
+                    if k:
+                        c['N6_assoc_type_substituted'] = c.get('N6_assoc_type_substituted', 0) + k
             if outname != name:
                 nt = re.sub(r'\bfn\s+' + re.escape(name) + r'\b', 'fn ' + outname, nt, count=1)
                 c['fn_renamed_for_second_contract'] = 1
